@@ -37,6 +37,9 @@ func (env *Env) installNetFaults() {
 			c.ForceClose()
 			return errors.New("use of closed network connection")
 		}
+		if fp.FailDest > 0 && c.ID != fp.FailDest-1 {
+			return nil
+		}
 		if fp.FailFrom > 0 && nth >= fp.FailFrom {
 			env.Probes.inc("F5_send_error")
 			return errSend
